@@ -42,7 +42,7 @@ func (r *Runner) RunHistory(histNo int, o HistOpts) error {
 		if o.FilterEvery > 0 && (b+1)%o.FilterEvery == 0 {
 			r.FilterPanel(leaves, o.Sample, 20)
 		}
-		if o.Rank > 0 {
+		if o.Rank > 0 && !r.Cfg.Quantised {
 			r.RankPanel(r.Shard, leaves, o.Rank, insertOnly)
 		}
 	}
@@ -77,6 +77,11 @@ func (r *Runner) RunHistory(histNo int, o HistOpts) error {
 				if p.Type == models.IndexTypeVectorVamana {
 					for i := 0; i < o.Rank; i++ {
 						r.VamanaPair(warm, cold, p, "warm/cold")
+					}
+				}
+				if p.Type == models.IndexTypeVectorFlat && r.Cfg.Quantised {
+					for i := 0; i < o.Rank; i++ {
+						r.FlatPair(warm, cold, p, leaves, "warm/cold")
 					}
 				}
 			}
